@@ -33,9 +33,14 @@ def load_j1939():
 
 
 class World:
-    def __init__(self, seed, dll='j1939-21', latency=(0.0002, 0.005), zero_prob=0.0, spin_limit=20000):
+    def __init__(self, seed, dll='j1939-21', latency=(0.0002, 0.005), zero_prob=0.0, spin_limit=20000, eager=None):
         self.j1939 = load_j1939()
         self.sim = engine.new_sim(seed, spin_limit)
+        # in half of the worlds a thread woken by a put() of the receive context may be switched to at once, in the middle of the handler that woke it
+        if os.environ.get('VERIF_EAGER'):
+            self.sim.eager_wake = float(os.environ['VERIF_EAGER'])
+        else:
+            self.sim.eager_wake = random.Random(seed ^ 0x51ED).choice([0.0, 0.0, 0.5, 1.0]) if eager is None else eager
         self.rng = random.Random(seed)
         self.dll = dll
         self.bus = Bus(self.sim, random.Random(seed ^ 0x9E3779B9), latency, zero_prob)
